@@ -155,7 +155,9 @@ def check(case):
         raise PropertyViolation(f"weights_ index {w.index.tolist()} does not label predictors_ {preds.index.tolist()}")
     labels = preds.index.tolist()
     wv = np.asarray([float(w.loc[k]) for k in labels])
-    if not np.all(np.isfinite(wv)) or wv.min() < -1e-9 or abs(wv.sum() - 1.0) > 1e-6:  # LP (HiGHS) tolerance
+    # the LP step returns HiGHS' solution as it is: bounds and the sum-to-one row hold to the solver's feasibility tolerance
+    # (1e-7), e.g. weights [1.00000009, -9e-8] for a bound tuned to within 1e-7 of a vertex; 1e-6 on both
+    if not np.all(np.isfinite(wv)) or wv.min() < -1e-6 or abs(wv.sum() - 1.0) > 1e-6:
         raise PropertyViolation(f"weights_ is not a probability vector: {wv.tolist()} (sum {wv.sum()!r})")
     # the randomised classifier that is actually served (_pmf_predict) is this Q: label-aligned mixture
     pm = np.asarray(eg._pmf_predict(X), dtype=float)
